@@ -160,6 +160,18 @@ def run(ctx):
             continue
         traces.append(tr)
         infos.append(info)
+    # user metrics (Evaluator epoch_callback / step_callback) next to the built-in accuracy, with and without validation
+    for E, NB, NV in ((2, 2, 1), (1, 3, 0), (3, 1, 2)):
+        seed += 1
+        try:
+            tr, info = TR.run_trainer(sg, E, NB, NV, 1, "custom", False, seed)
+        except Exception as e:  # noqa: BLE001
+            rep.case("run:%s" % (("custom-metrics", E, NB, NV),))
+            rep.violation("fit-raised:%s:custom-metrics" % type(e).__name__, "Trainer (E=%d, NB=%d, NV=%d, custom evaluator callbacks) raised %s: %s" % (E, NB, NV, type(e).__name__, str(e)[:200]),
+                          dict(E=E, NB=NB, NV=NV, NT=1, evaluator="custom", callbacks=False, seed=seed))
+            continue
+        traces.append(tr)
+        infos.append(info)
     # the library's own DataLoader as the source of batches, fresh and after the caller has partially consumed it
     for lk, E, NB, NV in (("dataloader", 2, 2, 1), ("dataloader_peeked", 2, 3, 1), ("dataloader_peeked", 3, 2, 0), ("dataloader_peeked", 1, 3, 2)):
         seed += 1
@@ -181,7 +193,7 @@ def run(ctx):
         return rep.finish()
     accepted = []
     for i, (tr, info) in enumerate(zip(traces, infos), start=1):
-        rep.case("trace:E%d,NB%d,NV%d,NT%d,ev%d,cb%s,fit%d" % (info["E"], info["NB"], info["NV"], info["NT"], info["evaluator"], info["callbacks"], tr["fit"]))
+        rep.case("trace:E%d,NB%d,NV%d,NT%d,ev%s,cb%s,fit%d" % (info["E"], info["NB"], info["NV"], info["NT"], info["evaluator"], info["callbacks"], tr["fit"]))
         rep.traces += 1
         b = best.get(i, dict(l=0, done=False, phase="?"))
         if b["done"]:
@@ -195,7 +207,7 @@ def run(ctx):
                               b["l"] - 1, len(tr["ev"]), b["phase"], nxt, tr["cfg"]), dict(config=info, trace=tr))
         # driver-level facts about the returned history
         if tr["fit"]:
-            want = {"loss"} | ({"accuracy"} if info["evaluator"] else set())
+            want = {"loss"} | ({"accuracy"} if info["evaluator"] else set()) | ({"error_rate"} if info["evaluator"] == "custom" else set())
             if info["NV"] > 0:
                 want |= {"val_" + k for k in want}
             if set(info["history_keys"]) != want:
